@@ -591,6 +591,37 @@ def id3h_sweep(samples):
                 yield b"ID3" + bytes([vmaj, 0, flags]) + b"\0\0\0\x40" + ext + body
 
 
+def bpi_impl(f):
+    from mutagen.id3._tags import determine_bpi
+    from mutagen.id3._frames import Frames
+    return determine_bpi(f.getvalue(), Frames)
+
+
+def bpi_canon(r, data):
+    return (8 if r is int else 7,)
+
+
+def id3_frame(name, body, size=None, sync=False):
+    n = len(body) if size is None else size
+    sz = bytes(((n >> s) & 0x7F) for s in (21, 14, 7, 0)) if sync else struct.pack(">I", n & 0xFFFFFFFF)
+    return name + sz + b"\0\0" + body
+
+
+def bpi_sweep(samples):
+    base = id3_frame(b"TIT2", b"\0abc") + id3_frame(b"TPE1", b"\0" + b"x" * 200) + id3_frame(b"XXXX", b"\0y") + b"\0" * 30
+    yield base
+    yield from field_sweep(base, range(0, 40))
+    yield from truncations(base, 260)
+    for n in (0, 1, 9, 10, 11, 19, 20, 21, 127, 128, 129, 255, 256, 0x3FFF, 0x4000, 2 ** 28 - 1, 2 ** 31, 2 ** 32 - 1):
+        for sync in (False, True):
+            for name in (b"TIT2", b"TIT\xb2", b"\0\0\0\0", b"ZZZZ"):
+                for pad in (0, 1, 9, 10, 11, 25):
+                    yield id3_frame(name, b"\0" + b"q" * 130, n, sync) + id3_frame(b"TALB", b"\0z") + b"\0" * pad
+    for k in range(0, 45):
+        yield b"\0" * k
+        yield id3_frame(b"TIT2", b"\0abc") + b"\0" * k
+
+
 # ------------------------------------------------------------------------------------------- registry
 LOADERS = {
     "Musepack": dict(impl=mpc_impl, canon=mpc_canon, expect=mpc_expect, sweep=mpc_sweep,
@@ -638,4 +669,7 @@ LOADERS = {
     "OggTheoraInfo": dict(impl=ogt_impl, canon=ogt_canon, expect=ogt_expect, sweep=ogg_codec_sweep("sample.oggtheora", THEORA_ID),
                           coq=("Parse_ogg", "oggtheora_info_load", "ogg_id"), own=lambda n: n.endswith(".oggtheora") or n == "synth1", allowed=("EOFError",), max_len=3000,
                           mirrors="ogg.OggPage.__init__ + oggtheora.OggTheoraInfo.__init__ (EOFError mapped by OggFileType.load)"),
+    "ID3determine_bpi": dict(impl=bpi_impl, canon=bpi_canon, expect=ogv_expect, sweep=bpi_sweep, coq=("Parse_id3", "id3_determine_bpi", "id3_bpi_list"),
+                             own=lambda n: n.endswith(".id3"), seeds=[id3_frame(b"TIT2", b"\0abc") + id3_frame(b"COMM", b"\0eng\0" + b"c" * 140, sync=True) + b"\0" * 20],
+                             max_len=2048, mirrors="id3._tags.determine_bpi(data, Frames)"),
 }
